@@ -11,6 +11,7 @@ LEVEL_TEXT = (
     'every message kind), negotiated hold times {0,3,4,5,9,30,90}, inbound bursts, long outbound batches, pass costs up to 50 ms, '
     'process stalls, clock drift and sub-second wall steps, all on the virtual clock; oracle over the virtual timestamps of '
     'KEEPALIVE / NOTIFICATION bytes with tolerances measured per run (read poll + pass cost + injected stalls).'
+    ' `local-as auto`; an optional warm-up session negotiated with another hold time.'
 )
 LEVEL_NOTE = 'trusts: the virtual clocks (time.time patched to wall = epoch + mono*(1+drift) + step), simulated TCP delivery times; large wall-clock steps are deliberately outside the judged fault space'
 DESIGN_REF = 'DESIGN.md section 5, C12'
